@@ -78,6 +78,9 @@ CONF = {
     "signature": sig,
     "rule": "segments = chains (calc, raise*) of real Plugin.Calculate executions; distinct by content hash, "
             "non-trivial = at least one checked calculation after the reset",
+    "trusted_base": ["TLC (tla2tools in /opt/veriftools)", "k8s.io/utils/clock/testing fake clock injected through the packages' Clock / clk variables",
+                     "c09Client stub (answers the NodeResourceTopology Get of calculateOnNUMALevel, nothing else)",
+                     "projection functions in /verif/harness (field reads only)"],
     "assumptions": [
         "policy 'request' (memory only) is bounded with the node reservation as system term (documented formula, pinned by "
         "batchresource/plugin_test.go); system usage above the reservation is not demanded there (Reclaim!ReqPolicySysUsage = FALSE)",
